@@ -9,42 +9,42 @@ package mcpserver
 
 //@ func clusterStatusHandler$1
 //@   iface_calls_only [C40.clusterStatusHandler.read_methods_only] github.com/KafScale/platform/pkg/metadata.Store: Metadata, ListConsumerGroups, FetchConsumerGroup, FetchConsumerOffset, FetchTopicConfig, ListConsumerOffsets, NextOffset
-//@   never_writes [C40.clusterStatusHandler.no_in_place_mutation] metadata.ClusterMetadata.*, protocol.MetadataTopic.*, protocol.MetadataPartition.*, protocol.MetadataBroker.*, metadatapb.ConsumerGroup.*, metadatapb.GroupMember.*, metadatapb.Assignment.*, metadatapb.TopicConfig.*
+//@   never_writes [C40.clusterStatusHandler.no_in_place_mutation] metadata.ClusterMetadata.*, protocol.MetadataTopic.*, protocol.MetadataPartition.*, protocol.MetadataBroker.*, github.com/KafScale/platform/pkg/gen/metadata.ConsumerGroup.*, github.com/KafScale/platform/pkg/gen/metadata.GroupMember.*, github.com/KafScale/platform/pkg/gen/metadata.Assignment.*, github.com/KafScale/platform/pkg/gen/metadata.TopicConfig.*
 //@   frame_only
 //@
 //@ func clusterMetricsHandler$1
 //@   iface_calls_only [C40.clusterMetricsHandler.read_methods_only] github.com/KafScale/platform/pkg/metadata.Store: Metadata, ListConsumerGroups, FetchConsumerGroup, FetchConsumerOffset, FetchTopicConfig, ListConsumerOffsets, NextOffset
-//@   never_writes [C40.clusterMetricsHandler.no_in_place_mutation] metadata.ClusterMetadata.*, protocol.MetadataTopic.*, protocol.MetadataPartition.*, protocol.MetadataBroker.*, metadatapb.ConsumerGroup.*, metadatapb.GroupMember.*, metadatapb.Assignment.*, metadatapb.TopicConfig.*
+//@   never_writes [C40.clusterMetricsHandler.no_in_place_mutation] metadata.ClusterMetadata.*, protocol.MetadataTopic.*, protocol.MetadataPartition.*, protocol.MetadataBroker.*, github.com/KafScale/platform/pkg/gen/metadata.ConsumerGroup.*, github.com/KafScale/platform/pkg/gen/metadata.GroupMember.*, github.com/KafScale/platform/pkg/gen/metadata.Assignment.*, github.com/KafScale/platform/pkg/gen/metadata.TopicConfig.*
 //@   frame_only
 //@
 //@ func listTopicsHandler$1
 //@   iface_calls_only [C40.listTopicsHandler.read_methods_only] github.com/KafScale/platform/pkg/metadata.Store: Metadata, ListConsumerGroups, FetchConsumerGroup, FetchConsumerOffset, FetchTopicConfig, ListConsumerOffsets, NextOffset
-//@   never_writes [C40.listTopicsHandler.no_in_place_mutation] metadata.ClusterMetadata.*, protocol.MetadataTopic.*, protocol.MetadataPartition.*, protocol.MetadataBroker.*, metadatapb.ConsumerGroup.*, metadatapb.GroupMember.*, metadatapb.Assignment.*, metadatapb.TopicConfig.*
+//@   never_writes [C40.listTopicsHandler.no_in_place_mutation] metadata.ClusterMetadata.*, protocol.MetadataTopic.*, protocol.MetadataPartition.*, protocol.MetadataBroker.*, github.com/KafScale/platform/pkg/gen/metadata.ConsumerGroup.*, github.com/KafScale/platform/pkg/gen/metadata.GroupMember.*, github.com/KafScale/platform/pkg/gen/metadata.Assignment.*, github.com/KafScale/platform/pkg/gen/metadata.TopicConfig.*
 //@   frame_only
 //@
 //@ func describeTopicsHandler$1
 //@   iface_calls_only [C40.describeTopicsHandler.read_methods_only] github.com/KafScale/platform/pkg/metadata.Store: Metadata, ListConsumerGroups, FetchConsumerGroup, FetchConsumerOffset, FetchTopicConfig, ListConsumerOffsets, NextOffset
-//@   never_writes [C40.describeTopicsHandler.no_in_place_mutation] metadata.ClusterMetadata.*, protocol.MetadataTopic.*, protocol.MetadataPartition.*, protocol.MetadataBroker.*, metadatapb.ConsumerGroup.*, metadatapb.GroupMember.*, metadatapb.Assignment.*, metadatapb.TopicConfig.*
+//@   never_writes [C40.describeTopicsHandler.no_in_place_mutation] metadata.ClusterMetadata.*, protocol.MetadataTopic.*, protocol.MetadataPartition.*, protocol.MetadataBroker.*, github.com/KafScale/platform/pkg/gen/metadata.ConsumerGroup.*, github.com/KafScale/platform/pkg/gen/metadata.GroupMember.*, github.com/KafScale/platform/pkg/gen/metadata.Assignment.*, github.com/KafScale/platform/pkg/gen/metadata.TopicConfig.*
 //@   frame_only
 //@
 //@ func listGroupsHandler$1
 //@   iface_calls_only [C40.listGroupsHandler.read_methods_only] github.com/KafScale/platform/pkg/metadata.Store: Metadata, ListConsumerGroups, FetchConsumerGroup, FetchConsumerOffset, FetchTopicConfig, ListConsumerOffsets, NextOffset
-//@   never_writes [C40.listGroupsHandler.no_in_place_mutation] metadata.ClusterMetadata.*, protocol.MetadataTopic.*, protocol.MetadataPartition.*, protocol.MetadataBroker.*, metadatapb.ConsumerGroup.*, metadatapb.GroupMember.*, metadatapb.Assignment.*, metadatapb.TopicConfig.*
+//@   never_writes [C40.listGroupsHandler.no_in_place_mutation] metadata.ClusterMetadata.*, protocol.MetadataTopic.*, protocol.MetadataPartition.*, protocol.MetadataBroker.*, github.com/KafScale/platform/pkg/gen/metadata.ConsumerGroup.*, github.com/KafScale/platform/pkg/gen/metadata.GroupMember.*, github.com/KafScale/platform/pkg/gen/metadata.Assignment.*, github.com/KafScale/platform/pkg/gen/metadata.TopicConfig.*
 //@   frame_only
 //@
 //@ func describeGroupHandler$1
 //@   iface_calls_only [C40.describeGroupHandler.read_methods_only] github.com/KafScale/platform/pkg/metadata.Store: Metadata, ListConsumerGroups, FetchConsumerGroup, FetchConsumerOffset, FetchTopicConfig, ListConsumerOffsets, NextOffset
-//@   never_writes [C40.describeGroupHandler.no_in_place_mutation] metadata.ClusterMetadata.*, protocol.MetadataTopic.*, protocol.MetadataPartition.*, protocol.MetadataBroker.*, metadatapb.ConsumerGroup.*, metadatapb.GroupMember.*, metadatapb.Assignment.*, metadatapb.TopicConfig.*
+//@   never_writes [C40.describeGroupHandler.no_in_place_mutation] metadata.ClusterMetadata.*, protocol.MetadataTopic.*, protocol.MetadataPartition.*, protocol.MetadataBroker.*, github.com/KafScale/platform/pkg/gen/metadata.ConsumerGroup.*, github.com/KafScale/platform/pkg/gen/metadata.GroupMember.*, github.com/KafScale/platform/pkg/gen/metadata.Assignment.*, github.com/KafScale/platform/pkg/gen/metadata.TopicConfig.*
 //@   frame_only
 //@
 //@ func fetchOffsetsHandler$1
 //@   iface_calls_only [C40.fetchOffsetsHandler.read_methods_only] github.com/KafScale/platform/pkg/metadata.Store: Metadata, ListConsumerGroups, FetchConsumerGroup, FetchConsumerOffset, FetchTopicConfig, ListConsumerOffsets, NextOffset
-//@   never_writes [C40.fetchOffsetsHandler.no_in_place_mutation] metadata.ClusterMetadata.*, protocol.MetadataTopic.*, protocol.MetadataPartition.*, protocol.MetadataBroker.*, metadatapb.ConsumerGroup.*, metadatapb.GroupMember.*, metadatapb.Assignment.*, metadatapb.TopicConfig.*
+//@   never_writes [C40.fetchOffsetsHandler.no_in_place_mutation] metadata.ClusterMetadata.*, protocol.MetadataTopic.*, protocol.MetadataPartition.*, protocol.MetadataBroker.*, github.com/KafScale/platform/pkg/gen/metadata.ConsumerGroup.*, github.com/KafScale/platform/pkg/gen/metadata.GroupMember.*, github.com/KafScale/platform/pkg/gen/metadata.Assignment.*, github.com/KafScale/platform/pkg/gen/metadata.TopicConfig.*
 //@   frame_only
 //@
 //@ func describeConfigsHandler$1
 //@   iface_calls_only [C40.describeConfigsHandler.read_methods_only] github.com/KafScale/platform/pkg/metadata.Store: Metadata, ListConsumerGroups, FetchConsumerGroup, FetchConsumerOffset, FetchTopicConfig, ListConsumerOffsets, NextOffset
-//@   never_writes [C40.describeConfigsHandler.no_in_place_mutation] metadata.ClusterMetadata.*, protocol.MetadataTopic.*, protocol.MetadataPartition.*, protocol.MetadataBroker.*, metadatapb.ConsumerGroup.*, metadatapb.GroupMember.*, metadatapb.Assignment.*, metadatapb.TopicConfig.*
+//@   never_writes [C40.describeConfigsHandler.no_in_place_mutation] metadata.ClusterMetadata.*, protocol.MetadataTopic.*, protocol.MetadataPartition.*, protocol.MetadataBroker.*, github.com/KafScale/platform/pkg/gen/metadata.ConsumerGroup.*, github.com/KafScale/platform/pkg/gen/metadata.GroupMember.*, github.com/KafScale/platform/pkg/gen/metadata.Assignment.*, github.com/KafScale/platform/pkg/gen/metadata.TopicConfig.*
 //@   frame_only
 //@
 //@ func registerTools
